@@ -731,6 +731,31 @@ func (g *c20Gen) text(thorough bool) (string, string) {
 		}
 		return sb.String()
 	}
+	if r.Chance(1, 2000) {
+		// a very long text without line breaks (64-200 KB: one line of CJK / Cyrillic / emoji prose): multi-byte
+		// characters sit across every power-of-two byte offset an implementation might cut its input at
+		var sb strings.Builder
+		sb.WriteString(strings.Repeat("a", r.Intn(8)))
+		target := r.Range(65000, 200000)
+		for sb.Len() < target {
+			unit, _ := g.frag(kit.Pick(r, []int{8, 9, 8, 9, 11}))
+			unit = strings.ReplaceAll(strings.ReplaceAll(unit, "\n", ""), "\r", "")
+			sb.WriteString(strings.Repeat(unit, r.Range(1, 400)))
+			if r.Chance(1, 6) {
+				sb.WriteByte(' ')
+			}
+		}
+		s := sb.String()
+		if r.Chance(1, 4) {
+			// the only line break comes late
+			p := len(s) - 1 - r.Intn(len(s)/10)
+			for p > 0 && !utf8.RuneStart(s[p]) {
+				p--
+			}
+			s = s[:p] + "\n" + s[p:]
+		}
+		return s, "very-long-line"
+	}
 	switch c := r.Intn(24); {
 	case c < 9:
 		return mix(1, 8), "mix"
